@@ -238,7 +238,13 @@ class _Scale(dict):
 FRAME_SCALE = _Scale(FRAME_SCALE)
 
 
-def body(shape, frame='axis', origin=(0, 0, 0), perm=None, scale=None):
+# catalogue shapes are placed away from the origin by default: a plane through the origin has offset d = 0, which hides
+# every sign / orientation error in offset comparisons (round-4 seeds C02, C05)
+DEFAULT_ORIGIN = (F(3, 4), F(-1, 2), F(5, 4))
+
+
+def body(shape, frame='axis', origin=None, perm=None, scale=None):
+    origin = DEFAULT_ORIGIN if origin is None else origin
     f = frame_map(frame, FRAME_SCALE[frame] * (F(scale) if scale is not None else 1), origin)
     pts = [f(p) for p in UNIT_SHAPES[shape]]
     if perm is not None:
@@ -247,7 +253,9 @@ def body(shape, frame='axis', origin=(0, 0, 0), perm=None, scale=None):
     return Body(pts, '%s@%s%s' % (shape, frame, '' if perm is None else '#%d' % perm))
 
 
-def polygon(shape, frame='axis', origin=(0, 0, 0), perm=None, scale=None):
+def polygon(shape, frame='axis', origin=None, perm=None, scale=None):
+    if origin is None:
+        origin = (0, 0, 0) if shape == 'para12' else DEFAULT_ORIGIN      # para12 needs the coordinates -1 / -2 themselves
     f = frame_map(frame, FRAME_SCALE[frame] * (F(scale) if scale is not None else 1), origin)
     pts = [f(p) for p in UNIT_POLYS[shape]]
     if perm is not None:
